@@ -346,6 +346,14 @@ template <class M> static void oneOp(Rng & rng, M & m) {
     stat("op:" + name); stat("op_outcome:" + err);
 }
 
+// the two views of one object must agree: tables (getTransitionFunction / getRewardFunction / getObservationFunction) against
+// the generic interface every algorithm and every converting constructor reads (getTransitionProbability /
+// getExpectedReward / getObservationProbability):   C06 acc <kb> <ko> <pomdp> <state> | <generic view>
+template <class M> static void accLine(const M & m) {
+    Line l; l << "C06" << "acc"; kinds<M>(l); l << Tr<M>::pomdp; dumpState(l, m); l << "|"; dumpSrc(l, m, Tr<M>::pomdp); l.emit();
+    stat("acc:lines");
+}
+
 template <class M> static void historyCase(Rng & rng, const std::string & tier) {
     Sizes z{(size_t)rng.range(1, 4), (size_t)rng.range(1, 3), (size_t)rng.range(1, 3)};
     std::unique_ptr<M> obj = construct<M>(rng, z);
@@ -353,7 +361,8 @@ template <class M> static void historyCase(Rng & rng, const std::string & tier) 
         if constexpr (Tr<M>::pomdp) obj.reset(new M(z.O, z.S, z.A, 0.5)); else obj.reset(new M(z.S, z.A, 0.5));
     }
     int n = (int)rng.range(2, tier == "thorough" ? 40 : 12);
-    for (int i = 0; i < n; ++i) oneOp(rng, *obj);
+    accLine(*obj);
+    for (int i = 0; i < n; ++i) { oneOp(rng, *obj); if (i == n / 2 || i + 1 == n) accLine(*obj); }
 }
 
 // ------------------------------------------------------------------------------------------ isProbability, three implementations
